@@ -133,6 +133,10 @@ func concretise(o absObj) *proxyv1alpha1.UpstreamCluster {
 		sch.MaxRequestsInflight = &proxyv1alpha1.MaxRequestsInflightFlowControlSchema{Max: 7}
 	case "tb":
 		sch.TokenBucket = &proxyv1alpha1.TokenBucketFlowControlSchema{QPS: 5, Burst: 10}
+	case "tbB":
+		sch.TokenBucket = &proxyv1alpha1.TokenBucketFlowControlSchema{QPS: 5, Burst: 20}
+	case "tbQ":
+		sch.TokenBucket = &proxyv1alpha1.TokenBucketFlowControlSchema{QPS: 8, Burst: 10}
 	case "exempt":
 		sch.Exempt = &proxyv1alpha1.ExemptFlowControlSchema{}
 	}
